@@ -58,14 +58,15 @@ func vfRandRawHeaders(r *verifkit.Rand, prefix string) []*conformancev1.Header {
 
 func vfRandRawResponse(r *verifkit.Rand) *conformancev1.RawHTTPResponse {
 	raw := &conformancev1.RawHTTPResponse{Headers: vfRandRawHeaders(r, "Hdr"), Trailers: vfRandRawHeaders(r, "Trl")}
-	// one field name cannot be both a header and a declared trailer of the same HTTP response
+	// mostly disjoint header and trailer names; sometimes one name on both sides (a gRPC-style test of
+	// header/trailer separation would do that)
 	inHdr := map[string]bool{}
 	for _, h := range raw.Headers {
 		inHdr[strings.ToLower(h.Name)] = true
 	}
 	var tr []*conformancev1.Header
 	for _, h := range raw.Trailers {
-		if !inHdr[strings.ToLower(h.Name)] {
+		if !inHdr[strings.ToLower(h.Name)] || r.Chance(1, 3) {
 			tr = append(tr, h)
 		}
 	}
@@ -212,14 +213,33 @@ func TestVerifC17ServerRaw(t *testing.T) {
 				}
 			}
 			// every given header / trailer with its values in order
+			onBothSides := map[string]bool{}
+			for _, h := range raw.Headers {
+				for _, tr := range raw.Trailers {
+					if strings.EqualFold(h.Name, tr.Name) {
+						onBothSides[strings.ToLower(h.Name)] = true
+					}
+				}
+			}
+			if len(onBothSides) > 0 {
+				rep.Count(fmt.Sprintf("same_name_in_headers_and_trailers_http%d", resp.ProtoMajor), 1)
+			}
 			for _, h := range raw.Headers {
 				if gotV := resp.Header.Values(h.Name); !reflect.DeepEqual(gotV, h.Value) {
-					rep.Violation("raw/server/header", fmt.Sprintf("header %s: got %q want %q", h.Name, gotV, h.Value), w)
+					key := "raw/server/header"
+					if onBothSides[strings.ToLower(h.Name)] {
+						key = fmt.Sprintf("raw/server/same-name-in-headers-and-trailers/http%d/header", resp.ProtoMajor)
+					}
+					rep.Violation(key, fmt.Sprintf("header %s: got %q want %q", h.Name, gotV, h.Value), w)
 				}
 			}
 			for _, h := range raw.Trailers {
 				if gotV := resp.Trailer.Values(h.Name); !reflect.DeepEqual(gotV, h.Value) {
-					rep.Violation("raw/server/trailer", fmt.Sprintf("trailer %s: got %q want %q (all trailers %v)", h.Name, gotV, h.Value, resp.Trailer), w)
+					key := "raw/server/trailer"
+					if onBothSides[strings.ToLower(h.Name)] {
+						key = fmt.Sprintf("raw/server/same-name-in-headers-and-trailers/http%d/trailer", resp.ProtoMajor)
+					}
+					rep.Violation(key, fmt.Sprintf("trailer %s: got %q want %q (all trailers %v)", h.Name, gotV, h.Value, resp.Trailer), w)
 				}
 			}
 			given := map[string]bool{}
